@@ -7,6 +7,7 @@ import (
 	"os"
 
 	"verif/engines/codec"
+	"verif/engines/route"
 	"verif/internal/mon"
 )
 
@@ -18,6 +19,8 @@ type entry struct {
 }
 
 var registry = map[string]entry{
+	"C01": {"route", "exploration", route.RunC01, route.Replay},
+	"C02": {"route", "exploration", route.RunC02, route.Replay},
 	"C17": {"codec", "exploration", codec.Run, codec.Replay},
 }
 
